@@ -250,29 +250,32 @@ def r1_escaping(ctx):
 
 
 def r2_escape_chain(ctx):
+    """what escape_html_chars returns, decided by constant propagation through it (str.replace on constant text): & < >
+    become their entities, the ampersand exactly once (replaced first), a text without special characters keeps its
+    letters and digits"""
+    from ..absint import run_function, helper_oracles, NotClosedTest
     f = ctx.func('error_html', 'escape_html_chars')
-    from .c08 import _replace_chain
-    order, _base = _replace_chain(f, ctx)
-    order = [(a_, b_) for a_, b_ in order]
-    if not order:
-        raise AnalysisError('escape_html_chars: replace chain not found')
-    srcs = [a for a, b in order]
-    ok = srcs and srcs[0] == '&'
-    yield Ob('error_html:escape_html_chars replaces & first', ok, ctx.floc(f), '' if ok else 'order %s: a later replacement\'s & would be escaped twice, or & never' % srcs)
+    funcs = helper_oracles(ctx, 'error_html')
+
+    def esc(t):
+        try:
+            return run_function(ctx.cfg(f), f, [t], funcs)
+        except (NotClosedTest, A.NotClosed) as e:
+            raise AnalysisError('escape_html_chars cannot be evaluated on the text %r: %s' % (t, e))
+    import html as _html
+    probe = 'a&b<c>d e&amp;f'
+    got = esc(probe)
+    # decoding the entities of the output once gives the input back (a non-breaking space stands for a blank)
+    ok = isinstance(got, str) and _html.unescape(got).replace('\xa0', ' ') == probe and '<' not in got and '>' not in got
+    yield Ob('error_html:escape_html_chars replaces & first', ok, ctx.floc(f),
+             '' if ok else '%r is written as %r: a later replacement\'s & is escaped twice, or & never' % (probe, got))
     for ch, ent in (('<', '&lt;'), ('>', '&gt;'), ('&', '&amp;')):
-        ok = (ch, ent) in order
-        yield Ob('error_html:escape_html_chars covers %s' % ch, ok, ctx.floc(f), '' if ok else '%r is not replaced by %s' % (ch, ent))
-    # the function returns the transformed text
-    rets = [n for n in ast.walk(f) if isinstance(n, ast.Return) and n.value is not None and not isinstance(n.value, ast.Constant)]
-    ok = False
-    if len(rets) == 1:
-        v = rets[0].value
-        if 'replace' in norm(v):
-            ok = True
-        elif isinstance(v, ast.Name):
-            # accumulator: the returned name is (re)bound to a .replace(...) of itself / of the parameter
-            ok = any(isinstance(n, ast.Assign) and path_of(n.targets[0]) == v.id and 'replace' in norm(n.value) for n in ast.walk(f))
-    yield Ob('error_html:escape_html_chars returns the escaped text', ok, ctx.floc(f), '' if ok else 'return changed')
+        got = esc('x%sy' % ch)
+        ok = got == 'x%sy' % ent
+        yield Ob('error_html:escape_html_chars covers %s' % ch, ok, ctx.floc(f), '' if ok else '%r is written as %r, not as %s' % (ch, got, ent))
+    got = esc('NM1*85*2')
+    ok = got == 'NM1*85*2'
+    yield Ob('error_html:escape_html_chars returns the escaped text', ok, ctx.floc(f), '' if ok else 'plain text %r comes back as %r' % ('NM1*85*2', got))
 
 
 def r3_every_segment(ctx):
